@@ -16,6 +16,6 @@ Extraction "model.ml"
   dec_quo_int dec_is_integer dec_round_int64 dec_round_int dec_truncate_int64 dec_truncate_int
   dec_truncate_dec dec_ceil dec_from_int dec_chk
   spec_quo spec_quo_round_up spec_quo_truncate spec_mul in_uint_b
-  safe_add safe_sub coins_sub coins_valid amount_of is_all_gte is_all_gt is_any_gte coins_equal coins_is_zero
+  safe_add safe_sub coins_sub coins_valid amount_of is_all_gte is_all_gt is_any_gte coins_equal coins_is_zero new_coins
   aset s_get s_has s_set s_delete s_iter s_iter_all c_write at_depth it_valid it_key it_value it_next consume
   kv_gas_config c_empty prefix_end_bytes inclusive_end_bytes merge_run.
